@@ -8,6 +8,8 @@ Explicit methods: to a rounding model.  Implicit methods: residual norm <= 4 x t
 Splitting methods: the harness composes drift / kick sub-steps from the table and the default kick mask.
 Up to three consecutive steps are taken on the same integrator object (cached end slopes, rejected attempts).
 """
+import math
+
 import numpy as np
 from hypothesis import strategies as st
 
@@ -72,6 +74,7 @@ def _case(draw, kind):
                 inplace=draw(st.booleans()),          # the same dict object, edited in place between the calls (system.constants['k'] = ...)
                 stiff=(draw(st.sampled_from([1.0, 1.0, 1.0, 10.0, 40.0])) if not linear else draw(st.sampled_from([1.0, 10.0, 40.0, 100.0, 400.0]))) if kind == "implicit" else 1.0,
                 linear=linear,
+                prelude_fault=draw(st.sampled_from([None, None, None, 2, 5, 9, 14, 20, 33])),
                 jump_mode=draw(st.sampled_from(["full", "full", "state_one_component", "state_one_component", "state_all_components", "time_only"])),
                 jump_index=draw(st.integers(0, 5)),
                 jump=[draw(st.booleans()) for _ in range(2)], jump_y=draw(PR.state(rhs["shape"])), jump_t=draw(st.sampled_from([0.5, -1.25, 7.0])))
@@ -105,6 +108,11 @@ def check(case):
         rp = dict(rp, P=[[x * case["stiff"] for x in row] for row in rp["P"]])     # stiffer stage systems: Newton works harder / fails
     f0 = PR.Prog(rp)
     kbox = [1.0]
+    evals = [0]
+    fault_at = [None]
+
+    class Boom(Exception):
+        pass
 
     class Scaled(object):
         """f scaled by the constant k of the current call (the harness' reference uses the same k)"""
@@ -113,6 +121,10 @@ def check(case):
         _mats = f0._mats
 
         def __call__(self, t, y, **kw):
+            evals[0] += 1
+            if fault_at[0] is not None and evals[0] == fault_at[0]:
+                fault_at[0] = None
+                raise Boom("injected at evaluation {}".format(evals[0]))
             return f0(t, y) * np.asarray(y).dtype.type(kw.get("k", kbox[0]))
 
         def jac(self, t, y, **kw):
@@ -145,6 +157,21 @@ def check(case):
     returned_steps = 0
     shared_constants = {}
     Lf = f.lipschitz()
+
+    if case.get("prelude_fault") is not None:
+        # before the judged steps the same integrator object makes a call elsewhere, with a long step (rejected and retried when
+        # the tolerance is tight), during which the right-hand side raises: whatever that call left behind must not leak
+        fault_at[0] = evals[0] + case["prelude_fault"]
+        try:
+            integ(rhs, dt(case["jump_t"]), np.asarray(case["jump_y"], dtype=dt).reshape(shape), {"k": 1.0}, dt(math.copysign(2.0 if kind != "implicit" else 0.5, case["h"])))
+            labels.append("prelude_completed")
+        except Boom:
+            labels.append("prelude_call_died_in_rhs")
+        except Exception as e:
+            if exc_origin(e)[0] == "harness":
+                raise
+            labels.append("prelude_failed:" + type(e).__name__)
+        fault_at[0] = None
 
     for step_no in range(case["nsteps"]):
         y_in = y.copy()
